@@ -235,6 +235,8 @@ func (e *Exec) harnessAPI2(fn *ssa.Function, args []Value) (Value, bool) {
 			e.ufLog = append(e.ufLog, ufLogEntry{name: "vUF64:" + name, args: la, res: app})
 		}
 		return app, true
+	case "vFailedCount":
+		return smt.BVC(64, 0), true
 	case "vWatchOff":
 		e.watchOff = true
 		return nil, true
